@@ -566,10 +566,10 @@ pub fn run(tier: Tier, replay: Option<Value>) -> i32 {
         }
     }
     let needs: &[(&str, u64)] = if replay.is_some() { &[] } else {
-        &[("restores_watched", 100), ("refusals_checked", 20), ("symlinks_in_sources", 100), ("stitched_versions_with_entries_below_a_symlink", 3), ("stitched_from_three_bands_with_entries_below_a_symlink", 1), ("overwrite_restores_meeting_links_left_by_the_earlier_version", 50)]
+        &[("restores_watched", 100), ("refusals_checked", 20), ("symlinks_in_sources", 100), ("stitched_versions_with_entries_below_a_symlink", 3), ("stitched_from_three_bands_with_entries_below_a_symlink", 1), ("overwrite_restores_meeting_links_left_by_the_earlier_version", 50), ("stitched_links_leading_outside_by_way_of_a_later_link", 1), ("stitched_links_leading_outside_by_way_of_a_later_directory", 1)]
     };
     run.finish(
-        "sandbox {outside/{file,dir/{f,g,sub/h}}, work/{src,arch,dest}}; generated source trees whose symlinks point at the sentinels beside the destination (relative at several depths, absolute), at '..', '../..', '.', '/', other entries of the tree, nothing, and names that do not exist in directories that do exist beside the destination (dangling links through which a file could be created); each version is restored with 4 selections (all, a subtree, two exclusion sets) x destination {absent, empty, pre-populated, pre-populated + overwrite, pre-populated with dot-named entries only}; before and after every restore a recursive lstat + content + ctime snapshot of outside/ and of the source must be identical; a pre-populated destination without overwrite must be refused and left identical (incl. ctime). Second part: successive restores into one destination: version A with links to the sentinels, version B in which every such link has become a directory (with children named like the sentinel directory's) or a file; A is restored into a fresh directory and B over it with overwrite (whole, and only a subtree below a former link), and the reverse order; outside/ must stay identical. Third part: versions stitched from a backup killed at every write point after a directory was replaced by a symlink to outside/dir (the link's own mtime being ordinary, within the last second before the epoch, at it, or far from it) (entries of the older band then lie below the link); in every second scenario another version lies in between, killed at one of its last write points, in which the directory's subdirectory is gone and later-sorting siblings have appeared, so that the final version is stitched from three bands and the oldest contributes an entry whose parent directory is not listed. Non-trivial = tree with >= 2 symlinks / stitched version with entries below a symlink.",
+        "sandbox {outside/{file,dir/{f,g,sub/h}}, work/{src,arch,dest}}; generated source trees whose symlinks point at the sentinels beside the destination (relative at several depths, absolute), at '..', '../..', '.', '/', other entries of the tree, nothing, and names that do not exist in directories that do exist beside the destination (dangling links through which a file could be created); each version is restored with 4 selections (all, a subtree, two exclusion sets) x destination {absent, empty, pre-populated, pre-populated + overwrite, pre-populated with dot-named entries only}; before and after every restore a recursive lstat + content + ctime snapshot of outside/ and of the source must be identical; a pre-populated destination without overwrite must be refused and left identical (incl. ctime). Second part: successive restores into one destination: version A with links to the sentinels, version B in which every such link has become a directory (with children named like the sentinel directory's) or a file; A is restored into a fresh directory and B over it with overwrite (whole, and only a subtree below a former link), and the reverse order; outside/ must stay identical. Third part: versions stitched from a backup killed at every write point after a directory was replaced by a symlink to outside/dir (the link's own mtime being ordinary, within the last second before the epoch, at it, or far from it) (entries of the older band then lie below the link); in half of these scenarios the link leads outside only by way of a later-sorting sibling link or of a later-sorting sibling directory and a '..' out of it, so that it resolves nowhere when it is made; in every second scenario another version lies in between, killed at one of its last write points, in which the directory's subdirectory is gone and later-sorting siblings have appeared, so that the final version is stitched from three bands and the oldest contributes an entry whose parent directory is not listed. Non-trivial = tree with >= 2 symlinks / stitched version with entries below a symlink.",
         &["ctime comparison detects chmod/chown/utimes through a link even when values are unchanged", "links in a pre-populated destination are generated only by restoring another version of the same archive into it (the statement scopes hostile input to symlinks the source contained)"],
         None,
         needs,
